@@ -232,4 +232,92 @@ theorem main_pc_is_nextY (cfg : Cfg) (hfix : cfg.fixed = true) (s s' : State) (m
     · cases hs; cases finished <;> cases w <;> cases so <;> cases te <;> exact ⟨rfl, fun _ => rfl⟩
     · cases hs
 
+/-- **the effects of `stepMain` inside a call are the skeleton's**: the successor state is the effect
+    of the operation at the pending yield point of the regenerated method (`applyYM`) followed by the
+    local operations the interpreter passes (`applyLocalM`) — up to the program counter
+    (`main_pc_is_nextY`) and, at the last lock release of the call, the return to the script
+    (`State.next`: the observation logged, the next call). -/
+theorem main_step_is_skeleton (cfg : Cfg) (hfix : cfg.fixed = true) (s s' : State) (m : String) (y : Y)
+    (t : Option Player)
+    (ht : t = match mainTarget s.mpc with
+              | some j => s.players[j]?
+              | none => none)
+    (hm : mpcMethod s.mpc = some m) (hy : mpcY true s.mpc = some y) (hs : stepMain cfg s = some s') :
+    ∃ eff, mainStepEff skeleton cfg s t m y = some eff ∧
+      if mpcReturns s.mpc then ∃ e, s' = eff.next e else { s' with mpc := s.mpc } = eff := by
+  rcases s with ⟨mpc, script, players, threads, mlock, hlock, finished, terminated, perr, log⟩
+  rcases cfg with ⟨w, f, fl⟩
+  simp only at hfix
+  subst hfix
+  unfold stepMain at hs
+  simp only [mainStepEff, mainGv]
+  generalize hso : players.any streamOpen = so at hs ⊢
+  generalize threads.isEmpty = te
+  cases mpc <;> simp only [mpcMethod, Option.some.injEq, reduceCtorEq] at hm <;> subst hm <;>
+    simp only [mpcY, Option.some.injEq] at hy <;> subst hy <;> simp only [mainTarget] at ht <;>
+    simp only [] at hs
+  case pAcq audio cs =>
+    subst ht
+    cases mlock <;> simp at hs
+    cases finished <;> simp at hs <;> subst hs <;> cases w <;> cases so <;> cases te <;> exact ⟨_, rfl, rfl⟩
+  case kHAcq =>
+    subst ht
+    cases hlock <;> simp at hs
+    cases finished <;> simp at hs <;> subst hs <;> cases w <;> cases so <;> cases te <;> exact ⟨_, rfl, rfl⟩
+  case kMAcq =>
+    subst ht
+    cases mlock <;> simp at hs
+    subst hs; cases finished <;> cases w <;> cases so <;> cases te <;> exact ⟨_, rfl, rfl⟩
+  case kMRel found =>
+    subst ht
+    rcases found with _ | j <;> simp only [] at hs
+    · cases so <;> simp at hs <;> subst hs <;> cases finished <;> cases w <;> cases te <;> exact ⟨_, rfl, rfl⟩
+    · cases hs; cases finished <;> cases w <;> cases so <;> cases te <;> exact ⟨_, rfl, rfl⟩
+  case kJoin j =>
+    subst ht
+    split at hs
+    case isFalse => cases hs
+    cases hs; cases finished <;> cases w <;> cases so <;> cases te <;> exact ⟨_, rfl, rfl⟩
+  case kTerm =>
+    subst ht; cases hs; cases finished <;> cases w <;> cases so <;> cases te <;> exact ⟨_, rfl, rfl⟩
+  case pRaiseRel =>
+    subst ht; cases hs; cases finished <;> cases w <;> cases so <;> cases te <;> exact ⟨_, rfl, _, rfl⟩
+  case pRel =>
+    subst ht; cases hs; cases finished <;> cases w <;> cases so <;> cases te <;> exact ⟨_, rfl, _, rfl⟩
+  case kAssertRel =>
+    subst ht; cases hs; cases finished <;> cases w <;> cases so <;> cases te <;> exact ⟨_, rfl, _, rfl⟩
+  case kHRel r =>
+    subst ht; cases hs; cases finished <;> cases w <;> cases so <;> cases te <;> exact ⟨_, rfl, _, rfl⟩
+  case cRel k j =>
+    rw [← ht] at hs
+    rcases t with _ | p <;> simp only [] at hs
+    · cases hs
+    · cases hs; cases k <;> cases finished <;> cases w <;> cases so <;> cases te <;> exact ⟨_, rfl, _, rfl⟩
+  case cAcq k j =>
+    rw [← ht] at hs
+    rcases t with _ | p <;> simp only [] at hs
+    · cases hs
+    · rcases p with ⟨pc, audio, cs, all, todo, written, sst, lk, go, halting, fail⟩
+      cases lk <;> simp at hs
+      subst hs
+      cases halting <;> cases k <;> cases finished <;> cases w <;> cases so <;> cases te <;> exact ⟨_, rfl, rfl⟩
+  case kSAcq j =>
+    rw [← ht] at hs
+    rcases t with _ | p <;> simp only [] at hs
+    · cases hs
+    · rcases p with ⟨pc, audio, cs, all, todo, written, sst, lk, go, halting, fail⟩
+      cases lk <;> simp at hs
+      subst hs
+      cases finished <;> cases w <;> cases so <;> cases te <;> exact ⟨_, rfl, rfl⟩
+  case cEvt k j =>
+    rw [← ht] at hs
+    rcases t with _ | p <;> simp only [] at hs
+    · cases hs
+    · cases hs; cases k <;> cases finished <;> cases w <;> cases so <;> cases te <;> exact ⟨_, rfl, rfl⟩
+  all_goals
+    rw [← ht] at hs
+    rcases t with _ | p <;> simp only [] at hs
+    · cases hs
+    · cases hs; cases finished <;> cases w <;> cases so <;> cases te <;> exact ⟨_, rfl, rfl⟩
+
 end ALV.C17
